@@ -1924,7 +1924,10 @@ func (p *Parser) parseExpressionSuffix(left IExpr, prec, precLeft OpPrec) IExpr 
 				return nil
 			}
 			p.next()
+			prevAssumeArrowFunc := p.assumeArrowFunc
+			p.assumeArrowFunc = false // the right-hand side (an initializer) is not part of the arrow function parameters
 			left = &BinaryExpr{tt, left, p.parseExpression(OpAssign)}
+			p.assumeArrowFunc = prevAssumeArrowFunc
 			precLeft = OpAssign
 		case LtToken, LtEqToken, GtToken, GtEqToken, InToken, InstanceofToken:
 			if OpCompare < prec || !p.in && tt == InToken {
